@@ -2115,26 +2115,16 @@ def eval_extension(ctx, scratch, case):
         fh.write(extension_source(case))
     cf = ClassFactory()
     try:
+        # the documented Extension Path Method itself ([Global] extension_paths -> ClassFactory.set_extension_paths).  On the
+        # pinned tree load_extension_paths logged through a missing attribute (self.info) and raised AttributeError for every
+        # non-empty path; found by this stream, repaired in /repo (DESIGN §6, findings/c15_extension_path_loader.py)
         try:
             cf.set_extension_paths(paths=[d])
-        except AttributeError as e:
-            # TODO (genuine defect of /repo, reported to the coordinator, NOT judged): ClassFactory.load_extension_paths calls
-            # self.info(...) but ClassFactory has no `info` (its logger is self.log): every non-empty extension path raises
-            # AttributeError, the documented `Extension Path Method` cannot be used.  The remaining documented steps of that
-            # loader (load the file as a module, hand it to load_plugin) are carried out here so that what the property
-            # says about the classes of such a file is still exercised.
-            if 'info' not in str(e):
-                raise
-            ctx.bucket('TODO-finding:extension-path-loader-raises-AttributeError:not-judged')
-            import importlib.util
-            import pathlib
-            cf.extension_paths = []
-            cf.reload_plugins()
-            for fn in sorted(os.listdir(d)):
-                spec = importlib.util.spec_from_file_location(pathlib.Path(fn).stem, os.path.join(d, fn))
-                mod = importlib.util.module_from_spec(spec)
-                spec.loader.exec_module(mod)
-                cf.load_plugin(mod)
+        except Exception as e:  # noqa
+            ctx.violation('extension-path-loader-raises', 'ClassFactory.set_extension_paths on a directory of well-formed '
+                          'custom-class files raised %r' % (e,), case)
+            return
+        ctx.bucket('extension:loaded-through-set_extension_paths')
         byname = {c.__name__: c for c in list(cf.temperatureKlasses) + list(cf.temperatureMixinKlasses)}
         missing = [x['name'] for x in case['bases'] + case['mixins'] if x['name'] not in byname]
         if missing:
